@@ -29,3 +29,16 @@ package httpd
 //@   nosafety
 //@   dynamic_calls_modify_nothing
 //@   ensures a_supported_method_or_an_error: result1 == nil ==> result0 != nil && (result0.Method == 0 || result0.Method == 1)
+
+// With authentication enabled a write is handed to the points writer only after the write authorizer accepted it
+// for this user and database. (The same statement for serveQuery / ExecuteQuery is not under contract: between the
+// check and the call too much unmodelled code runs for the configuration flag to be provably stable.)
+//@ func (*Handler).serveWrite
+//@   props C16
+//@   nosafety
+//@   dynamic_calls_modify_nothing
+//@   ghost write_authorised bool = false
+//@   ghost auth_on bool = true
+//@   at after Database#1: ghost auth_on = h.Config.AuthEnabled
+//@   at after AuthorizeWrite#1: ghost write_authorised = callresult0 == nil
+//@   call serveWrite$2#1 requires a_write_runs_only_when_authorised: !auth_on || write_authorised
